@@ -44,6 +44,139 @@ pub fn panic_msg(e: Box<dyn std::any::Any + Send>) -> String {
 }
 
 /// add the files to a fresh parser (in the given order), dump the syntax stage, validate, dump
+/// The same final contents reached through a HISTORY on one parser: replacements (by other files' contents, by
+/// texts that do not parse, by the final content itself once more), `validate()` calls in between, removals, an
+/// extra id that comes and goes. Returns the syntax-stage dump, the validated dump and the operations.
+/// What the library returns must depend on what it holds now (C12) — and every other property speaks about what
+/// it returns in ANY use, not only on a fresh parser.
+pub fn through_history(files: &Files, seed: u64) -> (Json, Json, Json) {
+    let mut r = Rng::new(seed ^ 0x5DEE_CE66_D1CE_CAFE);
+    let mut p: Parser<String> = Parser::new();
+    let mut log: Vec<Json> = Vec::new();
+    let broken = ["package p;\ninterface Broken {\n", "interface NoPackage {}\n", "package p; parcelable P { int x; } trailing\n"];
+    let mut extra = false;
+    if !files.is_empty() {
+        for _ in 0..r.range(2, 7) {
+            match r.below(7) {
+                0 | 1 | 2 => {
+                    let id = r.pick(files).0.clone();
+                    let c = r.pick(files).1.clone();
+                    log.push(Json::Arr(vec![Json::s("add"), Json::s(id.clone()), Json::s(c.clone())]));
+                    p.add_content(id, &c);
+                }
+                3 => {
+                    let id = r.pick(files).0.clone();
+                    let c = (*r.pick(&broken)).to_owned();
+                    log.push(Json::Arr(vec![Json::s("add"), Json::s(id.clone()), Json::s(c.clone())]));
+                    p.add_content(id, &c);
+                }
+                4 => {
+                    log.push(Json::Arr(vec![Json::s("validate")]));
+                    let _ = p.validate();
+                }
+                5 => {
+                    let id = r.pick(files).0.clone();
+                    log.push(Json::Arr(vec![Json::s("remove"), Json::s(id.clone())]));
+                    p.remove_content(id);
+                }
+                _ => {
+                    let c = r.pick(files).1.clone();
+                    log.push(Json::Arr(vec![Json::s("add"), Json::s("zz_extra"), Json::s(c.clone())]));
+                    p.add_content("zz_extra".to_owned(), &c);
+                    extra = true;
+                }
+            }
+        }
+    }
+    // an id whose final content has no tree held, before, a definition of something another file imports:
+    // what it defined then is gone now
+    if files.iter().any(|f| f.0 == "zbroken") && r.chance(2, 3) {
+        let mut targets: Vec<String> = Vec::new();
+        for (_, t) in files {
+            for line in t.lines() {
+                let l = line.trim();
+                if let Some(rest) = l.strip_prefix("import ") {
+                    if let Some(path) = rest.strip_suffix(';') {
+                        let path = path.trim();
+                        if path.contains('.') && path.chars().all(|c| c.is_ascii_alphanumeric() || c == '.' || c == '_') {
+                            targets.push(path.to_owned());
+                        }
+                    }
+                }
+            }
+        }
+        if !targets.is_empty() {
+            let path = r.pick(&targets).clone();
+            let k = path.rfind('.').unwrap();
+            let kind = *r.pick(&["parcelable", "interface", "enum"]);
+            let body = if kind == "enum" { "{ A }" } else { "{}" };
+            let c = format!("package {};\n{} {} {}\n", &path[..k], kind, &path[k + 1..], body);
+            log.push(Json::Arr(vec![Json::s("add"), Json::s("zbroken"), Json::s(c.clone())]));
+            p.add_content("zbroken".to_owned(), &c);
+            if r.chance(1, 2) {
+                log.push(Json::Arr(vec![Json::s("validate")]));
+                let _ = p.validate();
+            }
+        }
+    }
+    if extra && !files.iter().any(|f| f.0 == "zz_extra") {
+        log.push(Json::Arr(vec![Json::s("remove"), Json::s("zz_extra")]));
+        p.remove_content("zz_extra".to_owned());
+    }
+    // ids the final state does not hold are gone already (only final ids and zz_extra were used)
+    for (id, text) in files {
+        log.push(Json::Arr(vec![Json::s("add"), Json::s(id.clone()), Json::s("<final>")]));
+        p.add_content(id.clone(), text);
+    }
+    if !files.is_empty() && r.chance(1, 2) {
+        log.push(Json::Arr(vec![Json::s("validate")]));
+        let _ = p.validate();
+        let (id, text) = r.pick(files).clone();
+        log.push(Json::Arr(vec![Json::s("add"), Json::s(id.clone()), Json::s("<final again>")]));
+        p.add_content(id, &text);
+    }
+    let stage1 = dump::results(p.verif_parse_results());
+    let out = dump::results(&p.validate());
+    (stage1, out, Json::Arr(log))
+}
+
+/// Every file parsed ALONE, each by a parser that never held anything else, each on a thread of its own (no
+/// thread-local left-overs): does the syntax stage of the multi-file parser (`stage1`) hold exactly these?
+pub fn solo_same(files: &Files, stage1: &Json) -> bool {
+    // the same id twice: the later content wins, as in the parser
+    let mut last: Vec<(String, String)> = Vec::new();
+    for (id, text) in files {
+        last.retain(|e| e.0 != *id);
+        last.push((id.clone(), text.clone()));
+    }
+    let mut all: std::collections::HashMap<String, aidl_parser::ParseFileResult<String>> = std::collections::HashMap::new();
+    for (id, text) in last {
+        let r = std::thread::spawn(move || {
+            let mut q: Parser<String> = Parser::new();
+            q.add_content(id.clone(), &text);
+            q.verif_parse_results().get(&id).cloned()
+        })
+        .join();
+        match r {
+            Ok(Some(fr)) => {
+                all.insert(fr.id.clone(), fr);
+            }
+            _ => return true, // a panic shows up in the main run as well
+        }
+    }
+    dump::results(&all) == *stage1
+}
+
+fn text_seed(files: &Files) -> u64 {
+    let mut h: u64 = 0xcbf29ce484222325;
+    for (id, t) in files {
+        for b in id.bytes().chain(t.bytes()) {
+            h = (h ^ b as u64).wrapping_mul(0x100000001b3);
+        }
+    }
+    h
+}
+
 pub fn impl_validate(files: &Files) -> Json {
     impl_validate_after(files, None)
 }
@@ -81,11 +214,24 @@ pub fn impl_validate_after(files: &Files, prev: Option<&Files>) -> Json {
                 tags_ok = false;
             }
         }
+        let out_json = dump::results(&out);
+        // one case in three: the same contents reached through a history must give the same answers
+        let sd = text_seed(files);
+        let (history_same, history_ops) = if sd % 3 == 0 {
+            let (s1h, oh, ops) = through_history(files, sd);
+            (s1h == stage1 && oh == out_json, ops)
+        } else {
+            (true, Json::Null)
+        };
+        let solo = if sd % 3 == 1 && files.len() > 1 { solo_same(files, &stage1) } else { true };
         Json::obj(vec![
             ("outcome", Json::s("ok")),
+            ("solo_same", Json::Bool(solo)),
             ("stage1", stage1),
             ("keys", Json::Arr(keys.into_iter().map(|(k, v)| Json::Arr(vec![Json::s(k), Json::s(v)])).collect())),
-            ("out", dump::results(&out)),
+            ("history_same", Json::Bool(history_same)),
+            ("history_ops", history_ops),
+            ("out", out_json),
             ("tags_ok", Json::Bool(tags_ok)),
         ])
     }));
@@ -115,8 +261,10 @@ pub fn impl_walk(files: &Files, with_positions: bool) -> Json {
                 walks.push(Json::Arr(vec![Json::s(id.clone()), crate::walk::walk_file(a, text, with_positions)]));
             }
         }
+        let solo = solo_same(files, &stage1);
         Json::obj(vec![
             ("outcome", Json::s("ok")),
+            ("solo_same", Json::Bool(solo)),
             ("stage1", stage1),
             ("out", dump::results(&out)),
             ("walks", Json::Arr(walks)),
@@ -249,11 +397,22 @@ pub fn parse_case(files: &Files, extra: Vec<(&'static str, Json)>) -> Vec<(&'sta
                 tags_ok = false;
             }
         }
+        let stage1 = dump::results(p.verif_parse_results());
+        let out_json = dump::results(&out);
+        let sd = text_seed(files);
+        let (history_same, history_ops) = if sd % 3 == 0 {
+            let (s1h, oh, ops) = through_history(files, sd);
+            (s1h == stage1 && oh == out_json, ops)
+        } else {
+            (true, Json::Null)
+        };
         Json::obj(vec![
             ("outcome", Json::s("ok")),
-            ("stage1", dump::results(p.verif_parse_results())),
-            ("out", dump::results(&out)),
+            ("stage1", stage1),
+            ("out", out_json),
             ("tags_ok", Json::Bool(tags_ok)),
+            ("history_same", Json::Bool(history_same)),
+            ("history_ops", history_ops),
         ])
     }));
     let imp = match r {
@@ -336,12 +495,34 @@ impl<'a> Emitter<'a> {
 }
 
 pub fn render_project(proj: &[(String, doc::Doc)], style: LayoutStyle, rng: &mut Rng) -> Files {
-    proj.iter()
+    let mut files: Files = proj
+        .iter()
         .map(|(id, d)| {
             let r = doc::render(d);
             (id.clone(), doc::layout(&r.toks, style, rng).text)
         })
-        .collect()
+        .collect();
+    // now and then the project also holds a file that does not parse (no tree, or a tree after error recovery),
+    // added before, between or after the others: it defines nothing and must not disturb anything
+    if !files.is_empty() && rng.chance(1, 4) {
+        const BROKEN: &[&str] = &[
+            "// TODO\n$ x",
+            "$",
+            "package ;",
+            "package a.b; interface {",
+            "import ;\npackage a; parcelable Foo {}",
+            "package a.b;\ninterface Foo { void f(in ; }\n",
+            "package a;\nparcelable Foo { int x; } trailing",
+            "package p;\n\n\n   é $",
+            "",
+        ];
+        // half of them: the error at byte offset 8 of a second line, where `package x` has its name in a plain layout
+        const AT8: &[&str] = &["// TODO\n$ x", "/* c */\n$", "//34567\n#", "\n\n\n\n\n\n\n\n$"];
+        let text = if rng.chance(1, 2) { (*rng.pick(AT8)).to_owned() } else { (*rng.pick(BROKEN)).to_owned() };
+        let at = rng.below(files.len() + 1);
+        files.insert(at, ("zbroken".to_owned(), text));
+    }
+    files
 }
 
 pub fn run(suite: &str, thorough: bool, seed: u64, shard: usize, nshards: usize, emit: &mut dyn FnMut(String)) {
@@ -912,8 +1093,14 @@ pub fn run(suite: &str, thorough: bool, seed: u64, shard: usize, nshards: usize,
                         })
                         .collect()
                 };
-                let f1 = lay(&proj, 0);
-                let f2 = lay(&proj2, if relayout { 0x9E37_79B9_7F4A_7C15 } else { 0 });
+                let mut f1 = lay(&proj, 0);
+                let mut f2 = lay(&proj2, if relayout { 0x9E37_79B9_7F4A_7C15 } else { 0 });
+                if r.chance(1, 3) {
+                    // both projects also hold a file that does not parse
+                    let text = (*r.pick(&["package a.b; interface {", "// TODO\n$ x", "package ;", "$"])).to_owned();
+                    f1.insert(0, ("zbroken".to_owned(), text.clone()));
+                    f2.insert(0, ("zbroken".to_owned(), text));
+                }
                 em.case(s, crate::store_ops::perturb_case(&f1, &f2, &target, how));
             }
         }
@@ -931,7 +1118,9 @@ pub fn run(suite: &str, thorough: bool, seed: u64, shard: usize, nshards: usize,
                 let mut pairs: Vec<Json> = Vec::new();
                 let mut texts: Vec<Json> = Vec::new();
                 let _ = aidl_parser::diagnostic::verif_take_expected();
-                let mut run = |text: String, pairs: &mut Vec<Json>, texts: &mut Vec<Json>| {
+                // spelt like token kinds: lexed as identifiers, rejected wherever no identifier may stand
+                let kinds = ["FLOAT", "INTEGER", "INTERFACE", "PACKAGE", "ONEWAY", "ENUM", "PARCELABLE", "IMPORT", "IDENT", "VOID", "PRIMITIVE", "DIRECTION", "ANNOTATION", "CONST", "STRING"];
+                let mut run = |text: String, pairs: &mut Vec<Json>, texts: &mut Vec<Json>| -> Option<(Vec<String>, String)> {
                     let res = catch_unwind(AssertUnwindSafe(|| {
                         let mut p: Parser<String> = Parser::new();
                         p.add_content("x".to_owned(), &text);
@@ -940,12 +1129,14 @@ pub fn run(suite: &str, thorough: bool, seed: u64, shard: usize, nshards: usize,
                     if res.is_err() {
                         pairs.push(Json::s("panic"));
                     }
+                    let first = got.first().cloned();
                     for (v, m) in got {
                         pairs.push(Json::Arr(vec![Json::Arr(v.into_iter().map(Json::s).collect()), Json::s(m)]));
                     }
                     if texts.len() < 3 {
                         texts.push(Json::s(text));
                     }
+                    first
                 };
                 for k in 0..rd.toks.len() {
                     let prefix = doc::layout(&rd.toks[..k], LayoutStyle::Plain, &mut r).text;
@@ -953,7 +1144,11 @@ pub fn run(suite: &str, thorough: bool, seed: u64, shard: usize, nshards: usize,
                     run(prefix.clone(), &mut pairs, &mut texts);
                     // an unacceptable (or acceptable: then no error is reported here) token
                     let b = *r.pick(&bad);
-                    run(format!("{} {}", prefix, b), &mut pairs, &mut texts);
+                    let e1 = run(format!("{} {}", prefix, b), &mut pairs, &mut texts);
+                    // an identifier spelt like a token kind
+                    let b2 = *r.pick(&kinds);
+                    let e2 = run(format!("{} {}", prefix, b2), &mut pairs, &mut texts);
+                    let _ = (e1, e2);
                 }
                 // mutated complete documents: recovered errors
                 for _ in 0..6 {
@@ -976,6 +1171,31 @@ pub fn run(suite: &str, thorough: bool, seed: u64, shard: usize, nshards: usize,
                         ("impl", Json::obj(vec![("outcome", Json::s("ok")), ("pairs", Json::Arr(pairs))])),
                     ],
                 );
+            }
+        }
+        // C20, against the tables: the same kind of texts as parse cases — the messages of the syntax diagnostics
+        // must be the ones the model derives from the regenerated tables (what the parser can accept at that point)
+        "expectedparse" => {
+            let n = share(if thorough { 600 } else { 40 });
+            let bad = [";", "}", ")", "{", "interface", "foo", "123", "@A", "=", ",", "<", ">", "class", "in", "void", "\"s\"", "1.5", ".", "oneway", "List", "[", "true"];
+            let kinds = ["FLOAT", "INTEGER", "INTERFACE", "PACKAGE", "ONEWAY", "ENUM", "PARCELABLE", "IMPORT", "IDENT", "VOID", "PRIMITIVE", "DIRECTION", "ANNOTATION", "CONST", "STRING"];
+            for _ in 0..n {
+                let sd = rng.next();
+                let mut r = Rng::new(sd);
+                let cfg = gen::DocCfg { docs: false, max_members: 3, max_depth: 2, ..Default::default() };
+                let d = gen::gen_document(&mut r, &cfg);
+                let rd = doc::render(&d);
+                let mut k = r.below(2);
+                while k < rd.toks.len() {
+                    let prefix = doc::layout(&rd.toks[..k], LayoutStyle::Plain, &mut r).text;
+                    let text = match r.below(3) {
+                        0 => prefix.clone(),
+                        1 => format!("{} {}", prefix, *r.pick(&bad)),
+                        _ => format!("{} {}", prefix, *r.pick(&kinds)),
+                    };
+                    em.case(sd ^ (k as u64), parse_case(&vec![("x".to_owned(), text)], vec![]));
+                    k += 2;
+                }
             }
         }
         // C19: serde round trip of parsed and validated trees
@@ -1507,6 +1727,18 @@ pub fn run(suite: &str, thorough: bool, seed: u64, shard: usize, nshards: usize,
                 ";", ",", "{", "}", "(", ")", "[", "]", "<", ">", "=", ".", "-", "@Ann", "foo", "Bar", "x1", "12", "007",
                 "1.5", "-3", "+.5f", "\"s\"", "\"unterminated", "/* open", "// line", "é", "日本", "\u{3000}", "#", "$", "\\",
                 "/**/", "/***/", "/** doc */", "*/", "/", "*", "99999999999", "4294967295", "4294967296",
+                // long tokens with multi-byte characters at every alignment (a message that quotes or truncates the
+                // offending token at a fixed byte count lands inside a character): string literals, names, numbers
+                "\"Длинная строка с юникодом, которая заметно длиннее сорока байт\"",
+                "\"xДлинная строка с юникодом, которая заметно длиннее сорока байт\"",
+                "\"日本語の長い文字列リテラル、四十バイトをはるかに超える長さのもの\"",
+                "\"xx日本語の長い文字列リテラル、四十バイトをはるかに超える長さのもの\"",
+                "\"🎉🎉🎉🎉🎉🎉🎉🎉🎉🎉🎉🎉🎉🎉🎉🎉🎉🎉🎉🎉🎉🎉🎉🎉🎉🎉🎉🎉🎉🎉🎉🎉🎉\"",
+                "\"x🎉🎉🎉🎉🎉🎉🎉🎉🎉🎉🎉🎉🎉🎉🎉🎉🎉🎉🎉🎉🎉🎉🎉🎉🎉🎉🎉🎉🎉🎉🎉🎉🎉\"",
+                "\"xx🎉🎉🎉🎉🎉🎉🎉🎉🎉🎉🎉🎉🎉🎉🎉🎉🎉🎉🎉🎉🎉🎉🎉🎉🎉🎉🎉🎉🎉🎉🎉🎉🎉\"",
+                "\"xxx🎉🎉🎉🎉🎉🎉🎉🎉🎉🎉🎉🎉🎉🎉🎉🎉🎉🎉🎉🎉🎉🎉🎉🎉🎉🎉🎉🎉🎉🎉🎉🎉🎉\"",
+                "a_very_long_identifier_that_goes_on_and_on_and_on_for_more_than_one_hundred_bytes_to_cross_any_small_fixed_buffer_size",
+                "123456789012345678901234567890123456789012345678901234567890.5",
             ];
             // every word of every lexer entry with a finite language (written by the translator from
             // THIS run's lexer table: keywords, punctuation, the direction words) in every syntactic
